@@ -33,9 +33,11 @@ def build(rng, root, portable=True, ignored_dirs=True, big=False):
         for p in pk:
             d = c + '/' + p
             mk(d, 'package')
-            for v in rng.sample(['1.0', '2.1-r1', '9999'], rng.randrange(1, 3)):
+            # (sometimes a package whose last ebuild is gone: metadata.xml and files/ remain)
+            nver = 0 if rng.random() < 0.12 else rng.randrange(1, 3)
+            for v in rng.sample(['1.0', '2.1-r1', '9999'], nver):
                 put('%s/%s-%s.ebuild' % (d, p, v), b'EAPI=8\n' + blob(30))
-            if rng.random() < 0.7:
+            if nver == 0 or rng.random() < 0.7:
                 put(d + '/metadata.xml', b'<pkgmetadata/>' + blob(8))
             if rng.random() < 0.5:
                 mk(d + '/files', 'pkgfiles')
